@@ -99,7 +99,19 @@ def _delayed(f):
     return lambda *a, **k: (f, a, k)
 
 
-JOBLIB = types.SimpleNamespace(Parallel=_seq_parallel, delayed=_delayed)
+class _JoblibProxy(types.ModuleType):
+    def __init__(self):
+        super().__init__("joblib")
+        self.Parallel = _seq_parallel
+        self.delayed = _delayed
+
+    def __getattr__(self, k):
+        import joblib as _jl
+
+        return getattr(_jl, k)
+
+
+JOBLIB = _JoblibProxy()
 FUNCTOOLS = types.SimpleNamespace(
     lru_cache=lambda *a, **k: (a[0] if a and callable(a[0]) else (lambda f: f)),
     wraps=functools.wraps,
